@@ -17,8 +17,10 @@ const std::string name(const Obj &o) { return std::string("obj") + std::to_strin
 // a pool of objects owned by the library; acquire hands one out, release_obj takes it back
 static Obj *slots[64];
 static bool used[64];
+static int next_slot = 0;       // slots are not reused within a run, so that a stale handle never aliases a new object
 Obj *acquire(int v) {
-  for (int i = 0; i < 64; ++i) if (!used[i]) {
+  for (int i = next_slot; i < 64; ++i) if (!used[i]) {
+    next_slot = i + 1;
     if (!slots[i]) { slots[i] = (Obj *)std::malloc(sizeof(Obj)); }
     new (slots[i]) Obj(v); --counters.obj_live; --counters.obj_made;      // not counted as a plain object
     used[i] = true; ++counters.pool_in_use; return slots[i];
